@@ -82,7 +82,8 @@ def run(run: Run):
     sol.add(z3.Implies(incoll, z3.And(alias != z3.StringVal(""), z3.SuffixOf(z3.Concat(z3.StringVal("_"), mod), alias))))      # C12: Address.module_alias
     sol.add(k == mod, incoll)                 # the parameter is named like the module and (lemma above) is in the collision set
     sol.add(qualifier == k)                   # ... and yet shadows it
-    r = sol.check()
+    from vf.smt import guarded_check
+    r = guarded_check(sol, 5000)[0]
     run.results.append(Result("flatten.binding:parameter-named-like-the-request's-module-does-not-shadow-it", "discharged" if r == z3.unsat else "unknown", "z3", 0, "lemma",
                               group="flatten.binding:no-shadowing"))
     run.assume(*m.assumptions)
